@@ -109,7 +109,7 @@ class RealRun:
                    on the real base Executor (harness.pipeline) with scripted outcomes.
     """
 
-    def __init__(self, execute=False, outcomes=None, max_steps=200000):
+    def __init__(self, execute=False, outcomes=None, max_steps=60000):
         P.reset_globals()
         self.ex = P.TraceExecutor(outcomes=list(outcomes or []), max_steps=max_steps)
         self.conn = P.PipelineConnection("alice", executor=self.ex)
@@ -1110,18 +1110,18 @@ def tag_known(prog, outcomes, f, cache):
     """Known-finding id for one oracle failure, or None.  Narrow rule (DESIGN 3.2-6): the failure shows
     the finding's feature AND disappears when exactly that feature is removed (one re-run on the real code).
 
-    F29  host-side handle staleness across flushes: (a) a Future/RegFuture object keeps the first value it
+    F41  host-side handle staleness across flushes: (a) a Future/RegFuture object keeps the first value it
          resolved to; (b) a register is returned (ret_reg) only by the subroutine that created its RegFuture.
          Feature: the same location read through a brand-new handle object is right (a), or the controller
          register is right and the program is right once the flushes in between are removed (b).
-    F31  a register obtained from new_register() in an earlier subroutine is overwritten by the assembler's
+    F42  a register obtained from new_register() in an earlier subroutine is overwritten by the assembler's
          scratch register / the array-initialisation loop of a later subroutine that does not mention it.
          Feature: handle created by `reg` before an earlier flush; removed by dropping the flushes in between.
     """
     feat = f.get("feature")
     if feat in ("trace", "ctrl-array", "array", "raise", "future-handle") and \
             not (feat == "future-handle" and f.get("fresh") == f.get("direct")):
-        # consequence of F31: a new_register() handle is used after a later flush
+        # consequence of F42: a new_register() handle is used after a later flush
         if not reg_handle_used_across_flush(prog):
             return None
         if "noflush" not in cache:
@@ -1130,11 +1130,11 @@ def tag_known(prog, outcomes, f, cache):
         rest = cache["noflush"]
         if rest is None or any(x.get("feature") == feat for x in rest):
             return None
-        return "F31"
+        return "F42"
     if feat == "future-handle" and f.get("fresh") == f.get("direct"):
-        return "F29"
+        return "F41"
     if feat == "reg-handle" and f.get("fresh") == f.get("direct"):
-        return "F29"
+        return "F41"
     if feat in ("reg-handle", "ctrl-reg"):
         if "noflush" not in cache:
             s2, d2 = oracle(without_inner_flushes(prog), outcomes)
@@ -1146,11 +1146,11 @@ def tag_known(prog, outcomes, f, cache):
         if still:
             return None
         if feat == "reg-handle" and f.get("ctrl") == f.get("direct"):
-            return "F29"
+            return "F41"
         if feat == "ctrl-reg":
-            return "F31"
+            return "F42"
         if feat == "reg-handle":  # host value follows the clobbered controller register
-            return "F31"
+            return "F42"
     return None
 
 
@@ -1187,15 +1187,17 @@ def _hoist(prog, pos):
     return p
 
 
-def shrink(prog, fails, max_tries=400):
+def shrink(prog, fails, max_tries=400, max_seconds=25.0):
     """Greedy delta debugging: remove / hoist statements while `fails(prog)` stays true."""
+    import time
+    t_end = time.time() + max_seconds
     tries = 0
     changed = True
-    while changed and tries < max_tries:
+    while changed and tries < max_tries and time.time() < t_end:
         changed = False
         for pos in sorted(_positions(prog), key=lambda x: (-len(x), x), reverse=False):
             for cand in (_remove(prog, pos), _hoist(prog, pos)):
-                if cand is None or cand == prog:
+                if cand is None or cand == prog or time.time() > t_end:
                     continue
                 tries += 1
                 try:
